@@ -424,3 +424,63 @@ def none_without_established_absence(t, payload_suffixes=(".result",)) -> bool:
         if v is True and k.endswith(" is None") and (any(k[: -len(" is None")].endswith(sfx) for sfx in payload_suffixes) or k[: -len(" is None")].endswith("_details")):
             return False
     return True
+
+
+def branch_query_scenarios(prog, pm):
+    """Small-scope evaluation of ExecutionState.raise_if_in_orphaned_branch (the query every operation asks on entry): returns
+    [(description, verdict, expected)] with verdict / expected in {"passes", "stops"}; [] if the method does not exist.
+    Chains are written op.parent -> ... -> root; S = recorded SUCCEEDED, O = recorded STARTED (open), U = not recorded at all."""
+    from .values import Const, DictVal, EnumVal, Obj, SeqVal, Sym, TypeRef
+
+    sc = prog.cls("state", "ExecutionState")
+    fn = sc.methods.get("raise_if_in_orphaned_branch")
+    if fn is None:
+        return []
+    opc = prog.cls("lambda_service", "Operation")
+    attrs = {a.attr for m in (fn, sc.methods["_has_completed_ancestor"]) for a in __import__("ast").walk(m.node)
+             if isinstance(a, __import__("ast").Attribute) and isinstance(a.value, __import__("ast").Name) and a.value.id == "self"}
+    SC = [
+        ("live branch traverses its own summarised context again (the context completed in this invocation: it and what is beneath it are marked)",
+         [("R", "S"), ("B", "O"), ("M", "O")], {"R"}, {"x"}, "passes"),
+        ("... nested summarised contexts", [("R2", "S"), ("R", "S"), ("B", "O"), ("M", "O")], {"R", "R2"}, {"x", "R2"}, "passes"),
+        ("every enclosing context is recorded SUCCEEDED up to the root", [("R", "S"), ("C", "S")], set(), set(), "passes"),
+        ("operation at the top level", [], set(), set(), "passes"),
+        ("first-time operation in a live branch", [("B", "O"), ("M", "O")], set(), set(), "passes"),
+        ("orphaned branch (its parallel was handed its completion record) traverses a summarised context recorded by an earlier invocation",
+         [("R", "S"), ("B", "O"), ("P", "S")], {"P"}, set(), "stops"),
+        ("orphaned branch that is itself in the marked set", [("R", "S"), ("B", "O"), ("P", "O")], set(), {"B"}, "stops"),
+        ("operation directly in an orphaned branch", [("B", "O"), ("P", "S")], {"P"}, set(), "stops"),
+        ("orphaned two levels up", [("C", "O"), ("B", "O"), ("P", "O")], {"P"}, set(), "stops"),
+        ("branch context not recorded (its START is still queued), parent completed", [("B", "U"), ("P", "O")], {"P"}, set(), "stops"),
+    ]
+    out = []
+    for desc, chain, completed, done, want in SC:
+        def sf(it, state, chain=chain, completed=completed, done=done):
+            o = Obj(sc, label="st")
+            ops, links = {}, {}
+            for i, (nid, st) in enumerate(chain):
+                par = chain[i + 1][0] if i + 1 < len(chain) else None
+                if st == "U":
+                    if par:
+                        links[nid] = Const(par)
+                    continue
+                op = Obj(opc, label=f"op_{nid}")
+                stn = {"S": "SUCCEEDED", "O": "STARTED"}[st]
+                op.fields.update(operation_id=Const(nid), parent_id=Const(par) if par else Const(None),
+                                 status=EnumVal(pm.status_cls.fq, stn, pm.status_cls.enum_members[stn]))
+                ops[nid] = op
+            for a in attrs:
+                if a.endswith("_lock"):
+                    o.fields[a] = Sym(a, TypeRef(prim="ext:threading.Lock"))
+            o.fields["_completed_contexts"] = SeqVal("set", [Const(x) for x in sorted(completed)])
+            o.fields["_parent_done"] = SeqVal("set", [Const(x) for x in sorted(done)])
+            o.fields["_parent_of"] = DictVal(dict(links))
+            o.fields["operations"] = DictVal(dict(ops))
+            return o
+
+        first = chain[0][0] if chain else None
+        trs = pm.run_function(fn, sf, lambda it, state, first=first: {fn.node.args.args[1].arg: Const(first)}, cell=("branch-query", ""), while_iters=8,
+                              ext_calls={"builtins.set": lambda it, a, k, n: SeqVal("set", list(a[0].items) if a and isinstance(a[0], SeqVal) else [])})
+        got = sorted({"passes" if t.outcome == "return" else ("stops" if (t.exc_class() or "").endswith("OrphanedChildException") else f"raises {t.exc_class()}") for t in trs})
+        out.append((desc + " [" + " -> ".join(f"{n}:{s}" for n, s in chain) + f"; completed={sorted(completed)} marked={sorted(done)}]", "/".join(got), want))
+    return out
